@@ -189,6 +189,38 @@ func (c *timedConn) PublishRequest(subject, reply string, data []byte) error {
 	return nil
 }
 
+// runBackToBack: a timeout pre-response with the response right behind it. When SendRequest returns the
+// response, the extension callbacks have been told about the pre-response that came before it.
+func runBackToBack(rep int) rec {
+	conn := &timedConn{scriptedConn: scriptedConn{subs: map[string]chan *nats.Msg{}}}
+	n := 1 + rep%3
+	for i := 0; i < n; i++ {
+		conn.at = append(conn.at, 0)
+		conn.msgs = append(conn.msgs, []byte(fmt.Sprintf(`timeout:"%d"`, 500+i)))
+	}
+	conn.at = append(conn.at, 0)
+	conn.msgs = append(conn.msgs, []byte(`{"result":{"done":true}}`))
+	var ext []int
+	var mu sync.Mutex
+	resp := resprot.SendRequest(conn, "call.test.b2b.m", nil, time.Second, func(d time.Duration) {
+		mu.Lock()
+		ext = append(ext, int(d/time.Millisecond))
+		mu.Unlock()
+	})
+	mu.Lock()
+	atReturn := append([]int{}, ext...)
+	mu.Unlock()
+	kind := "result"
+	switch {
+	case resp.HasError() && resp.Error.Code == res.CodeTimeout:
+		kind = "timeout"
+	case resp.HasError():
+		kind = "error"
+	}
+	return rec{"judge": "backtoback", "fail": "", "t0": n, "script": [][]interface{}{}, "res": kind, "ext": atReturn, "released": true, "fast": true, "elapsed_ticks": 0.0,
+		"dbg": fmt.Sprintf("scripted connection: %d timeout pre-response(s) and the response delivered back to back", n)}
+}
+
 // runSlowCallback: the first timeout pre-response announces a short deadline and the extension callback
 // it triggers takes longer than that; meanwhile a second pre-response with a long deadline arrives, and
 // the response comes well inside it. SendRequest finds, when the callback returns, an expired deadline
@@ -371,6 +403,11 @@ func runScript(url string, id int, fail string, t0 int, script []scriptEv) (rec,
 		mu.Unlock()
 	})
 	elapsed := time.Since(t)
+	// what the callbacks have been told by the time SendRequest returns (a notification that comes later is
+	// a call into the application after the request is over)
+	mu.Lock()
+	extAtReturn := append([]int{}, ext...)
+	mu.Unlock()
 	nc.Flush()
 	time.Sleep(2 * time.Millisecond)
 	subsAfter := nc.NumSubscriptions()
@@ -389,6 +426,7 @@ func runScript(url string, id int, fail string, t0 int, script []scriptEv) (rec,
 	case resp.HasResource():
 		kind = "resource"
 	}
+	ext = extAtReturn
 	if ext == nil {
 		ext = []int{}
 	}
@@ -518,6 +556,9 @@ func Run(c *core.Ctx) {
 	}
 	for rep := 0; rep < c.Pick(9, 60); rep++ {
 		good = append(good, runSlowCallback(rep))
+	}
+	for rep := 0; rep < c.Pick(30, 120); rep++ {
+		good = append(good, runBackToBack(rep))
 	}
 	for rep := 0; rep < c.Pick(2, 8); rep++ {
 		good = append(good, runConcurrentEcho(16, c.Pick(6000, 20000)))
